@@ -56,6 +56,8 @@ BlockEntries(txs) ==
 
 VerdictG(p, e, s) ==
   IF "panic" \in DOMAIN e THEN V("panic", e.op, e.panic)
+  \* building and querying never write to the caller's items
+  ELSE IF "argmod" \in DOMAIN e /\ e.argmod THEN V("argument-memory-modified", "items unchanged", e.op)
   ELSE CASE e.op = "Gcs" -> GcsVerdict(e)
          [] e.op = "GcsBuilder" ->
               LET want == BlockEntries(e.txs) IN
